@@ -504,8 +504,19 @@ func run(e *core.Env) {
 				}
 				if len(src) >= idx {
 					w.cn.Remove(r)
+					held := time.Duration(0)
+					if kind == "replay_old" && tp.Chance(1, 3) {
+						// The adversary takes its time: the genuine record is held back for
+						// simulated minutes or hours (a link setup has no deadline) before the
+						// old one is delivered in its place. Whatever the victim remembers
+						// about the peer's earlier messages must still be there then - idle
+						// sessions are dropped after a minute (without keys) or an hour.
+						held = []time.Duration{65 * time.Second, 3 * time.Minute, 61 * time.Minute, 2 * time.Hour}[tp.Intn(4)] + time.Duration(tp.Intn(30))*time.Second
+						time.Sleep(held)
+						e.Probe("old_record_delivered_after_minutes_or_hours")
+					}
 					w.cn.DeliverBytes(victimEnd(att, victimDir), append([]byte(nil), src[idx-1]...), false)
-					what = fmt.Sprintf("replace record %d by the one of an earlier connection", idx)
+					what = fmt.Sprintf("replace record %d by the one of an earlier connection (after holding the genuine one for %v)", idx, held)
 					e.Fault("replay_old")
 				} else {
 					w.cn.Deliver(r)
